@@ -6,7 +6,8 @@ import Mathlib.Analysis.SpecialFunctions.Log.Basic
 
 `stats.gmean` is documented as the geometric mean; SciPy evaluates it as the exponential of the mean logarithm, which is also what the
 harness's textbook oracle uses. Over the reals that is the N-th root of the product of the events (`gmeanLog_eq_root_prod`), for every
-number of strictly positive events, and it lies between the smallest and the largest event (`le_gmeanLog_of_le`, `gmeanLog_le_of_le`).
+number of strictly positive events, it lies between the smallest and the largest event (`le_gmeanLog_of_le`, `gmeanLog_le_of_le`) and never exceeds the
+arithmetic mean (`gmeanLog_le_mean`; the harness checks `gmean ≤ mean` on the implementation's answers for positive columns).
 The two forms differ only in machine arithmetic: the product of a few events of 32-bit magnitude already leaves the 64-bit range
 (last example) — the seeded change `C12-m29` evaluated the product in the container's integer type.
 -/
@@ -81,6 +82,44 @@ theorem gmeanLog_replicate (n : ℕ) (c : ℝ) (hc : 0 < c) : gmeanLog (List.rep
   apply le_antisymm
   · exact gmeanLog_le_of_le _ (by simp) c hc (fun x hx => by rw [List.eq_of_mem_replicate hx]; exact ⟨hc, le_refl _⟩)
   · exact le_gmeanLog_of_le _ (by simp) c hc (fun x hx => by rw [List.eq_of_mem_replicate hx])
+
+theorem sum_log_le_tangent (xs : List ℝ) (h : ∀ x ∈ xs, 0 < x) (m : ℝ) (hm : 0 < m) :
+    (xs.map Real.log).sum ≤ xs.length * Real.log m + (xs.sum - xs.length * m) / m := by
+  induction xs with
+  | nil => simp
+  | cons a t ih =>
+    have ha : 0 < a := h a (by simp)
+    have iht := ih (fun x hx => h x (by simp [hx]))
+    have h1 : Real.log (a / m) ≤ a / m - 1 := Real.log_le_sub_one_of_pos (div_pos ha hm)
+    rw [Real.log_div ha.ne' hm.ne'] at h1
+    simp only [List.map_cons, List.sum_cons, List.length_cons, Nat.cast_succ]
+    have e : (a + t.sum - ((t.length : ℝ) + 1) * m) / m = (a / m - 1) + (t.sum - t.length * m) / m := by
+      field_simp; ring
+    rw [e]; linarith
+
+/-- the geometric mean never exceeds the arithmetic mean (every number of strictly positive events) -/
+theorem gmeanLog_le_mean (xs : List ℝ) (hne : xs ≠ []) (h : ∀ x ∈ xs, 0 < x) : gmeanLog xs ≤ xs.sum / xs.length := by
+  have hlen : (0 : ℝ) < xs.length := by
+    have : 0 < xs.length := List.length_pos_of_ne_nil hne
+    exact_mod_cast this
+  have hsum : 0 < xs.sum := by
+    cases xs with
+    | nil => exact absurd rfl hne
+    | cons a t =>
+      have ha : 0 < a := h a (by simp)
+      have : 0 ≤ t.sum := List.sum_nonneg (fun x hx => (h x (by simp [hx])).le)
+      simp only [List.sum_cons]; linarith
+  set m := xs.sum / xs.length with hmdef
+  have hm : 0 < m := div_pos hsum hlen
+  have key := sum_log_le_tangent xs h m hm
+  have hz : xs.sum - xs.length * m = 0 := by
+    rw [hmdef]; field_simp; ring
+  rw [hz, zero_div, add_zero] at key
+  unfold gmeanLog
+  calc Real.exp ((xs.map Real.log).sum / xs.length) ≤ Real.exp (Real.log m) := by
+        apply Real.exp_le_exp.mpr
+        rw [div_le_iff₀ hlen]; linarith
+    _ = m := Real.exp_log hm
 
 /-- the hypotheses are satisfiable by a non-trivial column -/
 example : ([2, 8, 4] : List ℝ) ≠ [] ∧ ∀ x ∈ ([2, 8, 4] : List ℝ), (0 : ℝ) < x ∧ x ≤ 8 := by
